@@ -548,6 +548,9 @@ void *slab_pool<Policy, Mutex>::realloc(void *p, size_t new_size) {
 	void *new_p = allocate(new_size);
 	if(!new_p)
 		return nullptr;
+	// The tail of the old block beyond its requested length is poisoned; make all of it accessible before copying.
+	if constexpr (has_poisoning)
+		_plcy.unpoison_expand(p, current_size);
 	memcpy(new_p, p, current_size);
 	free(p);
 	return new_p;
